@@ -143,6 +143,11 @@ func (w *walInfo) keyKinds(v ssa.Value) map[string]bool {
 				out["ctor:"+g.Name()] = true
 				return
 			}
+			if id.Name == "Bytes" && len(y.Call.Args) == 1 && fieldOfValue(y.Call.Args[0]) == w.fGroup {
+				// the bytes of the receiver's own group id, written out instead of through the prefix constructor
+				out["ctor:groupId.Bytes"] = true
+				return
+			}
 			if (id.Name == "Key" || id.Name == "KeyCopy") && id.Recv == "Item" {
 				out["iterator-item-key"] = true
 				return
@@ -278,6 +283,7 @@ func kindsOK(k map[string]bool) (bool, string) {
 }
 
 func checkC06(c *Ctx, r *Report, tier string) {
+	round5(c, r, "C06")
 	r.Rule("C06.R1", "every iterator is bounded by the group: the options value given to NewIterator has its Prefix stored, before the call, from a constructor that embeds the receiver's group id", 1)
 	r.Rule("C06.R2", "key provenance: every key handed to txn.Get/Set, batch.Set/Delete or iterator.Seek in a method of the log store derives from a group-embedding key constructor or from Item().Key() of a prefix-bounded iterator (the package-level node-id accessors use a constant key: named exception)", 6)
 	r.Rule("C06.R3", "DeleteGroup covers every key family: for each key constructor that reaches a Set, the call tree of DeleteGroup contains a Delete of that family or a prefix sweep whose prefix is a prefix of the family", 3)
@@ -510,6 +516,10 @@ func familyPrefix(w *walInfo, g *ssa.Function) string {
 		src := cl.Call.Args[1]
 		if sc, ok := strip(src).(*ssa.Call); ok && sc.Call.StaticCallee() != nil && w.ctors[sc.Call.StaticCallee()] {
 			res = "ctor:" + sc.Call.StaticCallee().Name()
+			return
+		}
+		if sc, ok := strip(src).(*ssa.Call); ok && callID(&sc.Call).Name == "Bytes" && len(sc.Call.Args) == 1 && fieldOfValue(sc.Call.Args[0]) == w.fGroup {
+			res = "ctor:groupId.Bytes"
 			return
 		}
 		res = "literal " + src.String()
